@@ -32,9 +32,19 @@ def direct_table(repo):
                 if not any(isinstance(d, ast.Name) and d.id == 'classmethod' for d in fn.decorator_list):
                     continue
                 entry = _direct_entry(fn)
-                own[(cname, fn.name)] = entry
                 if entry is None:
                     not_direct += 1
+                    # the bus-input family (subclasses of AbstractIn in inout.py) must expand list-valued
+                    # bus / channels / lag arguments whatever the constructor body looks like: it stays in
+                    # the sweep for the law oracle (no Lean row: the tie is skipped)
+                    bases = [getattr(b, 'id', getattr(b, 'attr', None)) for b in cls.bases]
+                    a = fn.args
+                    if f.stem == 'inout' and 'AbstractIn' in bases and not (a.vararg or a.kwarg or a.kwonlyargs):
+                        names = [x.arg for x in a.args][1:]
+                        nreq = len(names) - len(a.defaults)
+                        entry = {'params': [{'name': n, 'req': True} if i < nreq else {'name': n, 'default': 0}
+                                            for i, n in enumerate(names)], 'call': None, 'family': 'in'}
+                own[(cname, fn.name)] = entry
         # classes of the module that inherit a direct constructor from a class of the same module
         for cname, cls in classes.items():
             chain, cur, seen = [], cls, set()
@@ -325,7 +335,11 @@ class Check(common.Check):
         malformed = rng.random() < 0.08
         args = []
         for p in ps[:n]:
-            if p['name'] in CHAN_PARAMS:
+            if p['name'] == 'default' and e['module'] == 'inout':
+                args.append(self.g_scalar(rng, len(pre)))      # LocalIn's default list is spread by design
+            elif p['name'] == 'bus' and rng.random() < 0.5:
+                args.append({rng.choice('lc'): [rng.choice([0, 2, 10, 12, 16]) for _ in range(rng.randint(1, 4))]})
+            elif p['name'] in CHAN_PARAMS:
                 if rng.random() < 0.3:
                     args.append({'l': [rng.randint(1, 3) for _ in range(rng.randint(1, 3))]})
                 else:
@@ -470,6 +484,11 @@ class Check(common.Check):
             rng.shuffle(idx)
             for i in idx[:n * 4 // 10]:
                 cases.append(self.gen_ctor(rng, table[i]))
+        # the bus input/output family: several list-valued bus / channels cases per constructor
+        for e in table:
+            if e['module'] == 'inout':
+                for _ in range(6):
+                    cases.append(self.gen_ctor(rng, e))
         # every ChannelList convenience method, every parameter, several times
         mtab = self.meth_table()
         for _ in range(12 if self.tier == 'thorough' else 3):
@@ -506,6 +525,8 @@ class Check(common.Check):
             if (e['module'], e['cls'], e['method']) == (case['mod'], case['cls'], case['meth']):
                 break
         else:
+            return None
+        if e.get('call') is None:
             return None
         vals = {}
         for i, p in enumerate(e['params']):
